@@ -26,7 +26,8 @@
  *           fold of SOME set of whole batches (which ones is C12's and C02/C03's business)
  *      C13  after every operation every table of the current version exists in the directory; at the end of
  *           the run and after the clean close every table named by the durable MANIFEST exists
- *      C17  after every operation the MANIFEST that CURRENT names, decoded independently, folds to
+ *      C17  at the end of the run (kill point and after the clean close) CURRENT names a file that exists, for
+ *           every fault site; and after every operation the MANIFEST that CURRENT names, decoded independently, folds to
  *           exactly the file set the database reports; judged for faults at write and rename calls only
  *           (when fsync, close or the open of the directory for its fsync fails, the record is complete
  *           on disk although lcdb rightly treats the step as failed, so the two may legitimately differ)
@@ -88,7 +89,7 @@ fail(frun_t *r, const char *sig, const char *msg) {
     return;
   if (prop_mode == 13 && strcmp(sig, "reachable-file-removed"))
     return;
-  if (prop_mode == 17 && strcmp(sig, "manifest-replay-differs"))
+  if (prop_mode == 17 && strcmp(sig, "manifest-replay-differs") && strcmp(sig, "current-dangling"))
     return;
   r->ok = 0;
   snprintf(r->sig, sizeof(r->sig), "%s", sig);
@@ -242,6 +243,13 @@ fault_body(void *arg) {
       fail(r, "reachable-file-removed", m);
     }
   }
+  if (prop_mode == 17) {
+    char e[300], m[400];
+    if (!lay_current_names_existing_manifest(DB, e, sizeof(e))) {
+      snprintf(m, sizeof(m), "at the end of the faulted run: %s", e);
+      fail(r, "current-dangling", m);
+    }
+  }
   /* ending (b): kill now - everything written so far is what the OS keeps */
   {
     size_t *W = malloc(sizeof(size_t) * (size_t)(vfs_cur->ninodes + 1));
@@ -254,6 +262,13 @@ fault_body(void *arg) {
   /* ending (a): clean close (still under the fault if it is persistent), then the fault clears */
   kh_close(&h);
   vfs_fault_clear(vfs_cur);
+  if (prop_mode == 17) {
+    char e[300], m[400];
+    if (!lay_current_names_existing_manifest(DB, e, sizeof(e))) {
+      snprintf(m, sizeof(m), "after the clean close that ends the faulted run: %s", e);
+      fail(r, "current-dangling", m);
+    }
+  }
   if (prop_mode == 13) {
     char e[300], m[400];
     if (lay_manifest_tables_exist(DB, e, sizeof(e)) == 0) {
